@@ -14,11 +14,11 @@ Q = ('quick', 'thorough')
 T = ('thorough',)
 
 
-def e2e(name, kt, n, eps, epsrec, flt='float', tiers=Q, timeout=900, extra=None):
+def e2e(name, kt, n, eps, epsrec, flt='float', tiers=Q, timeout=900, extra=None, narrow=None, mem_gb=14):
     d = dict(KT[kt]); d.update(N=n, NMIN=n, EPS=eps, EPSREC=epsrec, FLT=flt, VERIF_VEC_CAP=n + 4)
     if extra: d.update(extra)
     return dict(name=name, unit='pgm_e2e.cpp', harness='h_pgm_e2e.c', defs=d, cbmc_extra=['--no-array-field-sensitivity'],
-                narrow=16 if KT[kt]['KEY_BITS'] == 8 else 0, timeout=timeout, tiers=tiers,
+                narrow=narrow if narrow is not None else (16 if KT[kt]['KEY_BITS'] == 8 else 0), timeout=timeout, tiers=tiers, mem_gb=mem_gb,
                 bounds='exactly n = %d keys of %s (all values except the reserved maximum%s), every query value except the reserved one, Epsilon=%d, '
                        'EpsilonRecursive=%d, %s slopes; sequential construction; every loop bound checked by an unwinding assertion'
                        % (n, kt, '; the reserved value allowed as last key -> rejection path' if extra and 'ALLOW_SENTINEL' in extra else '', eps, epsrec, flt))
@@ -95,6 +95,7 @@ JOBS['C01'] = [
     e2e('e2e_u8_n3_e1_r1', 'uint8_t', 3, 1, 1),
     e2e('e2e_u8_n3_e1_r0', 'uint8_t', 3, 1, 0),
     e2e('e2e_u8_n4_e1_r0', 'uint8_t', 4, 1, 0, tiers=T, timeout=3000),
+    e2e('e2e_u8_n5_e1_r0_k31', 'uint8_t', 5, 1, 0, tiers=T, timeout=5000, extra=dict(ORD_HI=31), narrow=8, mem_gb=40),
 ]
 JOBS['C03'] = [pla('pla_fit_k3_e0', 3, epsfix=0, maximality=False),
                pla('pla_fit_k3_e1_x63', 3, epsfix=1, xmax=63, ymax=6, maximality=False), pla('pla_fit_k3_e2_x31', 3, epsfix=2, xmax=31, ymax=6, maximality=False),
